@@ -31,6 +31,9 @@ func main() {
 	prog, err := loadProgram(*repo)
 	if err != nil {
 		fmt.Println("LOAD ERROR:", err)
+		if le, ok := err.(*LoadError); ok && len(args) > 1 && args[0] == "check" {
+			os.Exit(loadErrorVerdict(le, *verif, *repo, args[1]))
+		}
 		os.Exit(2)
 	}
 	switch args[0] {
